@@ -173,6 +173,14 @@ def generated(args):
                                    'msg': str(e)[:120]}]})
             continue
         Tc = rng.uniform(600, 900)
+        # the coolant temperature as a float array, as an array of whole
+        # kelvins of integer type, or as a plain integer for all pins: the
+        # result is the same function of the number, whatever its type
+        form = it % 3
+        if form:
+            Tc = float(int(Tc))
+        tc_arg = (np.array([Tc]) if form == 0 else
+                  np.array([int(Tc)]) if form == 1 else int(Tc))
         h = 10 ** rng.uniform(3.3, 5.3)
         dz = rng.choice([0.01, 0.002, 0.0007])
         qs = [0.0] + sorted(10 ** rng.uniform(2.0, 4.9) for _ in range(6))
@@ -182,7 +190,7 @@ def generated(args):
         for qv in qs:
             q_lin = np.array([qv])
             try:
-                t = pm.calculate_temperatures(q_lin, np.array([Tc]),
+                t = pm.calculate_temperatures(q_lin, tc_arg,
                                               np.array([h]), dz)
                 if not np.all(np.isfinite(t)):
                     ev.append({'e': 'Stopped', 'why': 'nonfinite'})
